@@ -14,8 +14,8 @@
 //     (each such item costs seconds): its remaining grammars are compiled only and counted as
 //     predicted_nonterminating_not_run; the run is then reported non-exhaustive (c.Cap).
 //     A class for which no confirmation run failed is run completely in step 3.
-//  3. Bulk: every other grammar is compiled and matched on every input through three entry points
-//     in engine.Job workers (20 s per item, 1500 MB): they must all terminate. A crash there is
+//  3. Bulk: every other grammar is compiled and matched on every input through ParseExpr and
+//     Parse (both run Compiler.Match) in engine.Job workers (20 s per item, 1500 MB): they must all terminate. A crash there is
 //     attributed by the engine to the (grammar, input) item and keyed by kind@site.
 package main
 
@@ -53,11 +53,10 @@ const (
 
 // ---- the code under test ----
 
-// runItem compiles k.Text and matches k.Input through the three entry points.
-// It returns "rejected" (compile error), "ok" or a Failure for an escaping panic.
+// runItem matches input through ParseExpr and Parse (each runs Compiler.Match and then looks
+// at the rest of the input). It returns a Failure for an escaping panic.
 func runItem(cl *tpl.Compiler, input string) *engine.Failure {
 	return engine.Guard(func() {
-		cl.Match("", input, nil)
 		cl.ParseExpr(input, nil)
 		cl.Parse("", input, nil)
 	})
@@ -280,6 +279,11 @@ func main() {
 		}
 		// wave 1: which candidates compile (in a child: a compiler crash must not take the parent down)
 		compiles := map[string]string{}
+		type pending struct {
+			k Case
+			f *engine.Failure
+		}
+		compileFails := map[string]pending{}
 		var jobs []func()
 		for _, class := range allClasses {
 			for _, cd := range cands[class] {
@@ -292,17 +296,28 @@ func main() {
 					c.Eval(1)
 					compiles[cd.text] = r.outcome
 					if r.outcome == "crash" {
+						r.fail.What = fmt.Sprintf("compiling the grammar does not terminate (%s; %s)", r.fail.Key, r.fail.What)
+						r.fail.Key = "compile:" + cd.class
 						r.fail.Detail = fmt.Sprintf("grammar: %q (compile only)\n%s", cd.text, r.fail.Detail)
-						c.Violate(k, r.fail)
+						compileFails[cd.text] = pending{k, r.fail}
 					}
 				})
 			}
 		}
 		pool(12, jobs)
+		for _, class := range allClasses { // report in enumeration order, independent of scheduling
+			for _, cd := range cands[class] {
+				if p, ok := compileFails[cd.text]; ok {
+					c.Violate(p.k, p.f)
+				}
+			}
+		}
 		// wave 2: the 3 simplest compiling grammars of each class on 1-2 inputs that reach the construct
 		jobs = nil
 		type confirmRow struct {
 			Class, Grammar, Input, Outcome string
+			k                              Case
+			f                              *engine.Failure
 		}
 		var rows []confirmRow
 		for _, class := range allClasses {
@@ -335,7 +350,8 @@ func main() {
 						defer mu.Unlock()
 						c.Eval(1)
 						c.NontrivialN(1)
-						rows = append(rows, confirmRow{cd.class, strings.TrimSpace(cd.text), inTexts[i], r.outcome})
+						row := confirmRow{Class: cd.class, Grammar: strings.TrimSpace(cd.text), Input: inTexts[i], Outcome: r.outcome, k: k}
+						defer func() { rows = append(rows, row) }()
 						if r.outcome == "crash" {
 							confirmed[cd.class]++
 							c.Hist("confirmed_nonterminating:"+cd.class, 1)
@@ -343,7 +359,7 @@ func main() {
 							r.fail.What = fmt.Sprintf("matching does not terminate (%s; %s)", r.fail.Key, what)
 							r.fail.Key = cd.class
 							r.fail.Detail = fmt.Sprintf("grammar: %q input: %q\n%s", cd.text, inTexts[i], r.fail.Detail)
-							c.Violate(k, r.fail)
+							row.f = r.fail
 						} else {
 							c.Hist("confirmation_run_"+r.outcome+":"+cd.class, 1)
 						}
@@ -361,6 +377,11 @@ func main() {
 			}
 			return rows[i].Grammar+rows[i].Input < rows[j].Grammar+rows[j].Input
 		})
+		for _, r := range rows { // report in sorted order, independent of scheduling
+			if r.f != nil {
+				c.Violate(r.k, r.f)
+			}
+		}
 		c.Extra["confirmation_runs"] = rows
 		var skip []string
 		for cl := range confirmed {
@@ -410,10 +431,9 @@ func main() {
 				continue
 			}
 			if err != nil {
-				if class == "" {
-					w.Hist("rejected_at_compile:unpredicted")
-				} else {
-					w.Hist("rejected_at_compile:" + class)
+				w.Hist("rejected_at_compile")
+				if !strings.Contains(class, "left-recursion") { // cross-check of the static analysis, not a verdict
+					w.Hist("rejected_at_compile_without_left_recursion_per_tplref")
 				}
 				continue
 			}
@@ -423,13 +443,17 @@ func main() {
 			}
 			if skipped {
 				w.Hist("predicted_nonterminating_not_run")
-				w.Hist("not_run:" + class)
+				for _, cn := range cls {
+					w.Hist("not_run_having:" + cn)
+				}
 				continue
 			}
 			if class == "" {
 				w.Hist("grammars_run:no-class")
 			} else {
-				w.Hist("grammars_run:" + class)
+				for _, cn := range cls {
+					w.Hist("grammars_run_having:" + cn)
+				}
 			}
 			w.Nontrivial()
 			for _, in := range inTexts {
@@ -448,10 +472,10 @@ func main() {
 		}
 	}
 	job.Run(c)
-	c.Rule = fmt.Sprintf("every grammar `doc = e` with <=%d operator nodes over leaves {\"a\", INT, \",\", doc} and every grammar `doc = e1; aux = e2` (doc mentions aux) with <=%d operator nodes in total over {\"a\", INT, \",\", doc, aux}; operators: n-ary sequence and choice (k-1 nodes), * + ? %% ++; including nullable repetition bodies and direct/indirect/nullable-prefix left recursion. Each compiled grammar x every input of 0..3 tokens over {a, 1, \",\"} (%d inputs, single blanks) x {Match, ParseExpr, Parse}. Evaluations = compile items + (grammar, input) items + confirmation runs; distinct_nontrivial = grammars that compiled and were matched on all inputs (+ confirmation runs)", max1, max2, len(ins))
+	c.Rule = fmt.Sprintf("every grammar `doc = e` with <=%d operator nodes over leaves {\"a\", INT, \",\", doc} and every grammar `doc = e1; aux = e2` (doc mentions aux) with <=%d operator nodes in total over {\"a\", INT, \",\", doc, aux}; operators: n-ary sequence and choice (k-1 nodes), * + ? %% ++; including nullable repetition bodies and direct/indirect/nullable-prefix left recursion. Each compiled grammar x every input of 0..3 tokens over {a, 1, \",\"} (%d inputs, single blanks) x {ParseExpr, Parse} (both run Compiler.Match). Evaluations = compile items + (grammar, input) items + confirmation runs; distinct_nontrivial = grammars that compiled and were matched on all inputs (+ confirmation runs)", max1, max2, len(ins))
 	c.Assumptions = []string{
 		"non-termination is observed as: no completion within 20 s for one (grammar, input) item, a fatal stack overflow, or a heap above 1500 MB (all three are unbounded growth of a match that should take microseconds; no shorter wall-clock limit is used)",
-		"defect classes come from tplref's static analysis (least-fixpoint nullability; rules reachable at the same input position, through nullable prefixes or not); violations of a confirmed class are keyed by the class, crashes in the bulk part by the engine's kind@site key",
+		"defect classes come from tplref's static analysis (least-fixpoint nullability; rules reachable at the same input position, through nullable prefixes or not); violations of a confirmed class are keyed by the class (compile:<class> if already compiling hangs); a crash in the bulk part means a grammar outside every confirmed class did not terminate (unexplained by the analysis) and carries the engine's kind@site key, its replay reports it as unexplained-nontermination",
 		"2-rule grammars whose root rule does not mention aux are skipped (aux unreachable; they match like the corresponding 1-rule grammar)",
 	}
 	c.Extra["bound"] = map[string]any{"max_ops_1rule": max1, "max_ops_2rule_total": max2, "grammar_indices": sp.Total(), "inputs": len(ins), "max_input_tokens": 3}
